@@ -227,6 +227,13 @@ defect("integer-rule-descending", "f", type_name="Integer")(_set(6, "10...1"))
 defect("integer-rule-descending-to-zero", "f", type_name="Integer")(_set(6, "10...0"))
 defect("decimal-rule-descending-to-zero", "f", type_name="Decimal")(_set(6, "1.5...0"))
 defect("integer-rule-overlap", "f", type_name="Integer")(_set(6, "1...5, 5...9"))
+# two parts of a range that share a value, in every arrangement of open ends, containment and order
+for _name, _value in (("both-open-below", "...5, ...10"), ("both-open-below-reversed", "...10, ...5"), ("both-open-above", "5..., 10..."),
+                      ("both-open-above-reversed", "10..., 5..."), ("contained", "1...10, 5...6"), ("containing", "5...6, 1...10"),
+                      ("single-inside", "3, 1...5"), ("single-inside-reversed", "1...5, 3"), ("open-ends-meet", "...5, 3..."),
+                      ("open-ends-meet-reversed", "3..., ...5")):
+    defect("integer-rule-overlap-" + _name, "f", type_name="Integer")(_set(6, _value))
+    defect("length-overlap-" + _name, "f", only=lambda rows: not _fixed_only(rows))(_set(4, _value))
 defect("decimal-rule-not-a-number", "f", type_name="Decimal")(_set(6, "abc"))
 defect("decimal-rule-descending", "f", type_name="Decimal")(_set(6, "9.5...1.5"))
 
@@ -283,6 +290,14 @@ def _d23(rows, index):
 def _d24(rows, index):
     rows[index] = (rows[index] + [""] * 4)[:4]
     rows[index][3] = ""
+    return index
+
+
+@defect("check-rule-empty-rule-like-cell-behind", "c")
+def _d24b(rows, index):
+    # the rule column is empty; what sits in the cells behind it is a comment, however much it looks like a rule
+    rows[index] = (rows[index] + [""] * 4)[:4]
+    rows[index] = rows[index][:3] + ["", rows[index][3]]
     return index
 
 
